@@ -172,7 +172,12 @@ def execute(sc, ctx):
         order = sorted(range(len(triples)), key=lambda i: core.h64(sc["triple_seed"], i))
         chosen = [triples[i] for i in order[:1500]]
     base_snap = core.snapshot(w.sandbox)
+    import time as _time
+
     for hr, path, kind, posn, e, pos, c, r in chosen:
+        if ctx.deadline is not None and _time.time() > ctx.deadline:
+            ctx.probe("run_cut_short_by_budget")
+            break
         # a file directly inside the command root's own history (not in a nested one)
         top_file = None
         for name in sorted(core.R_listdir(r)):
